@@ -581,9 +581,25 @@ func TestCLI(t *testing.T) {
 }
 
 func TestReplay(t *testing.T) {
-	_, raw, ok := drv.ReplayFile()
+	part, raw, ok := drv.ReplayFile()
 	if !ok {
 		t.Skip("no replay requested")
+	}
+	if part == "watch" {
+		var wc WatchCase
+		if err := json.Unmarshal(raw, &wc); err != nil {
+			t.Fatal(err)
+		}
+		dir := t.TempDir()
+		err, timing := runWatch(wc, dir, 1)
+		if err != nil && timing {
+			os.RemoveAll(dir)
+			err, _ = runWatch(wc, dir, 3)
+		}
+		if err != nil {
+			drv.Fail(t, "watch", "", wc, "%v", err)
+		}
+		return
 	}
 	var c Case
 	if err := json.Unmarshal(raw, &c); err != nil {
